@@ -17,6 +17,7 @@ import (
 	"github.com/youchainhq/go-youchain/common"
 	"github.com/youchainhq/go-youchain/core/state"
 	"github.com/youchainhq/go-youchain/core/types"
+	"github.com/youchainhq/go-youchain/rlp"
 	"github.com/youchainhq/go-youchain/staking"
 )
 
@@ -122,14 +123,40 @@ func chain(c *kit.Ctx, id string, i int) {
 		var ec *evCase
 		var target common.Address
 		var before snapVal
+		var comps []companion
+		var compBefore []snapVal
+		var postedDesc []string
 		if n >= 18 && !periodEnd && r.Intn(3) == 0 {
 			ec, target = makeEvidence(run, st, n-1, cb, r)
 			if ec != nil {
 				// an evidence block carries no transactions: nothing else can touch the accused
 				offered = nil
 				before = snapshot(st, target)
+				comps, compBefore = nil, nil
+				if ec.genuine && r.Intn(2) == 0 {
+					// further validators equivocated in the same round: several evidences are confirmed
+					// in ONE block; they reach the proposer's pool in arbitrary (gossip) order
+					comps = companions(run, st, n-1, cb, target, r)
+					for _, cp := range comps {
+						compBefore = append(compBefore, snapshot(st, cp.target))
+					}
+				}
+				var posts []staking.EvidenceDoubleSignV5
 				for k := 0; k < ec.copies; k++ {
-					chaingen.PostEvidence(run.A, staking.NewEvidence(ec.data))
+					posts = append(posts, ec.data)
+				}
+				for _, cp := range comps {
+					posts = append(posts, cp.data)
+				}
+				r.Shuffle(len(posts), func(i, j int) { posts[i], posts[j] = posts[j], posts[i] })
+				postedDesc = nil
+				for _, d := range posts {
+					chaingen.PostEvidence(run.A, staking.NewEvidence(d))
+					postedDesc = append(postedDesc, fmt.Sprintf("signer#%d votetype%d round%d/%d signs%d", d.SignerIdx, d.VoteType, d.Round, d.RoundIndex, len(d.Signs)))
+				}
+				if len(comps) > 0 {
+					c.Count("blocks_with_several_equivocators", 1)
+					sigParts["several-equivocators"] = true
 				}
 				c.Count("evidences_posted", ec.copies)
 				c.Count("ev_"+ec.name, 1)
@@ -147,6 +174,19 @@ func chain(c *kit.Ctx, id string, i int) {
 		})
 		if g != nil {
 			if ec == nil {
+				on := 0
+				for _, v := range st.GetValidatorsForUpdate() {
+					if v.IsOnline() {
+						on++
+					}
+				}
+				if on == 0 && strings.Contains(fmt.Sprint(g), "division by zero") {
+					// nobody is online any more (the generated transactions took the last online
+					// validator offline): rewardsToPool divides by zero portions. Under real consensus
+					// such a chain has no proposer; the neutral engine lets it go on. End of this chain.
+					c.Count("chains_ended_without_online_validator", 1)
+					break
+				}
 				panic(g)
 			}
 			class := "endblock-panic-on-evidence:" + ec.name
@@ -173,11 +213,56 @@ func chain(c *kit.Ctx, id string, i int) {
 				before.val.Expelled != after.val.Expelled || before.val.ExpelExpired != after.val.ExpelExpired)) || before.wsum.Cmp(after.wsum) != 0 || penDelta.Sign() != 0
 			ext := map[string]interface{}{"block": n, "evidence_kind": ec.name, "evidence": ec.data, "accused_before": before.asString, "accused_after": after.asString,
 				"penalty_account_delta": penDelta.String(), "slashdata_len": len(res.Block.Header().SlashData)}
+			// which evidences did the builder record for importers to replay?
+			confirmed := map[uint32]bool{}
+			var conf []staking.Evidence
+			if rlp.DecodeBytes(res.Block.Header().SlashData, &conf) == nil {
+				for _, e := range conf {
+					var d staking.EvidenceDoubleSignV5
+					if rlp.DecodeBytes(e.Data, &d) == nil {
+						confirmed[d.SignerIdx] = true
+					}
+				}
+			}
+			if len(comps) > 0 {
+				// with several accused the penalty account alone does not tell who was touched
+				changed = before.exists != after.exists || (before.exists && (before.val.Token.Cmp(after.val.Token) != 0 || before.val.Status != after.val.Status ||
+					before.val.Expelled != after.val.Expelled || before.val.ExpelExpired != after.val.ExpelExpired)) || before.wsum.Cmp(after.wsum) != 0
+			}
+			ownLoss := new(big.Int)
+			if before.exists && after.exists {
+				ownLoss.Add(new(big.Int).Sub(before.val.Token, after.val.Token), new(big.Int).Sub(before.wsum, after.wsum))
+			}
+			dropped := func(b4, af snapVal, idx uint32, who string) bool {
+				if !b4.exists || !af.exists || confirmed[idx] {
+					return false
+				}
+				touched := b4.val.Token.Cmp(af.val.Token) != 0 || b4.val.Status != af.val.Status || b4.val.Expelled != af.val.Expelled || b4.val.ExpelExpired != af.val.ExpelExpired || b4.wsum.Cmp(af.wsum) != 0
+				if !touched {
+					return false
+				}
+				loss := new(big.Int).Add(new(big.Int).Sub(b4.val.Token, af.val.Token), new(big.Int).Sub(b4.wsum, af.wsum))
+				cl := "evidence-applied-by-builder-but-absent-from-slashdata"
+				if loss.Sign() != 0 {
+					cl = "penalty-applied-by-builder-but-absent-from-slashdata"
+				}
+				viol(cl, fmt.Sprintf("block %d: the builder changed %s (%s -> %s, taking %v) but its evidence is not among the %d evidences recorded in header.SlashData: importers cannot replay it", n, who, b4.asString, af.asString, loss, len(conf)), ext)
+				return true
+			}
+			compDropped := false
+			for ci, cp := range comps {
+				if dropped(compBefore[ci], snapshot(res.State, cp.target), cp.data.SignerIdx, "a further equivocator of the round") {
+					compDropped = true
+					break
+				}
+			}
 			switch {
+			case compDropped:
 			case changed && len(res.Block.Header().SlashData) == 0:
 				// the builder acted on the evidence but left nothing for importers to replay (the
 				// listed zero-penalty divergence of C06): the importer will reject this block
 				viol("evidence-applied-by-builder-but-absent-from-slashdata", fmt.Sprintf("block %d: the builder changed the accused (%s -> %s) for evidence %s but header.SlashData is empty", n, before.asString, after.asString, ec.name), ext)
+			case len(comps) > 0 && dropped(before, after, ec.data.SignerIdx, "the accused"):
 			case ec.honest && changed:
 				viol("honest-validator-slashable:"+ec.name, fmt.Sprintf("block %d: evidence assembled only from votes an honest validator emits (%s) was accepted: %s -> %s, penalty account +%v", n, ec.name, before.asString, after.asString, penDelta), ext)
 			case !ec.honest && !ec.genuine && changed:
@@ -194,14 +279,34 @@ func chain(c *kit.Ctx, id string, i int) {
 				// bounded: at most the configured fraction of token + pending withdrawals
 				base := new(big.Int).Add(before.val.Token, before.wsum)
 				bound := new(big.Int).Div(new(big.Int).Mul(base, frac), big.NewInt(100))
-				if penDelta.Cmp(bound) > 0 {
-					viol("penalty-exceeds-configured-fraction", fmt.Sprintf("block %d: penalty %v exceeds %v%% of token+pending withdrawals (%v)", n, penDelta, frac, bound), ext)
-				}
 				// conservation: what arrives in the penalty account is what left stake and withdrawals
 				tokDelta := new(big.Int).Sub(before.val.Token, after.val.Token)
 				wDelta := new(big.Int).Sub(before.wsum, after.wsum)
-				if sum := new(big.Int).Add(tokDelta, wDelta); sum.Cmp(penDelta) != 0 {
-					viol("penalty-not-conserved", fmt.Sprintf("block %d: penalty account +%v but stake -%v and pending withdrawals -%v", n, penDelta, tokDelta, wDelta), ext)
+				loss := new(big.Int).Add(tokDelta, wDelta)
+				lossAll := new(big.Int).Set(loss)
+				// the other equivocators of this round: each slashed once, within its own bound, expelled
+				for ci, cp := range comps {
+					cb4, caf := compBefore[ci], snapshot(res.State, cp.target)
+					if !cb4.exists || !caf.exists {
+						continue
+					}
+					cl := new(big.Int).Add(new(big.Int).Sub(cb4.val.Token, caf.val.Token), new(big.Int).Sub(cb4.wsum, caf.wsum))
+					cbound := new(big.Int).Div(new(big.Int).Mul(new(big.Int).Add(cb4.val.Token, cb4.wsum), frac), big.NewInt(100))
+					ext["companion_"+fmt.Sprint(ci)] = cb4.asString + " -> " + caf.asString
+					if cl.Cmp(cbound) > 0 {
+						viol("penalty-exceeds-configured-fraction", fmt.Sprintf("block %d: a second equivocator of the round lost %v, more than %v%% of token+pending withdrawals (%v)", n, cl, frac, cbound), ext)
+					}
+					if !caf.val.Expelled && !cb4.val.Expelled {
+						viol("real-equivocation-not-slashed", fmt.Sprintf("block %d: of several equivocators in one round, %s was not acted upon", n, cb4.asString), ext)
+					}
+					lossAll.Add(lossAll, cl)
+					c.Count("companion_equivocators_judged", 1)
+				}
+				if loss.Cmp(bound) > 0 {
+					viol("penalty-exceeds-configured-fraction", fmt.Sprintf("block %d: penalty %v exceeds %v%% of token+pending withdrawals (%v)", n, loss, frac, bound), ext)
+				}
+				if lossAll.Cmp(penDelta) != 0 {
+					viol("penalty-not-conserved", fmt.Sprintf("block %d: penalty account +%v but stake and pending withdrawals of the accused -%v (stake -%v, withdrawals -%v of the first accused)", n, penDelta, lossAll, tokDelta, wDelta), ext)
 				}
 				if !after.val.Expelled {
 					viol("equivocator-not-expelled", fmt.Sprintf("block %d: slashed validator not expelled", n), ext)
@@ -237,7 +342,26 @@ func chain(c *kit.Ctx, id string, i int) {
 			if ec != nil {
 				kind = ec.name
 			}
-			viol("builder-block-rejected-by-importer:"+kind, fmt.Sprintf("block %d (evidence: %s) built by the builder is not accepted by the importer: %v", n, kind, ierr), map[string]interface{}{"slashdata_len": len(res.Block.Header().SlashData)})
+			wit := map[string]interface{}{"slashdata_len": len(res.Block.Header().SlashData), "evidences_in_pool_order": postedDesc}
+			var conf []staking.Evidence
+			if rlp.DecodeBytes(res.Block.Header().SlashData, &conf) == nil {
+				var cs []string
+				for _, e := range conf {
+					var d staking.EvidenceDoubleSignV5
+					if rlp.DecodeBytes(e.Data, &d) == nil {
+						cs = append(cs, fmt.Sprintf("signer#%d votetype%d round%d/%d signs%d", d.SignerIdx, d.VoteType, d.Round, d.RoundIndex, len(d.Signs)))
+					}
+				}
+				wit["slashdata_confirmed"] = cs
+			}
+			if ec != nil {
+				wit["accused_before"] = before.asString
+				wit["accused_after_builder"] = snapshot(res.State, target).asString
+				for ci, cp := range comps {
+					wit[fmt.Sprintf("companion_%d", ci)] = compBefore[ci].asString + " -> " + snapshot(res.State, cp.target).asString
+				}
+			}
+			viol("builder-block-rejected-by-importer:"+kind, fmt.Sprintf("block %d (evidence: %s) built by the builder is not accepted by the importer: %v", n, kind, ierr), wit)
 			break
 		}
 		if ec != nil {
@@ -263,6 +387,55 @@ func chain(c *kit.Ctx, id string, i int) {
 	c.Count("blocks", blocks)
 	c.Sample(map[string]interface{}{"scenario": sc.Name, "blocks": blocks, "evidence_kinds": parts})
 	c.End(fmt.Sprintf("%s %v", sc.Name, len(parts)))
+}
+
+type companion struct {
+	target common.Address
+	data   staking.EvidenceDoubleSignV5
+}
+
+// companions builds real double-prevote evidence against up to two further validators of the
+// look-back set (not the proposer, not the first accused, positive stake), keeping at least one
+// validator online.
+func companions(run *chaingen.Run, st *state.StateDB, round uint64, proposer, first common.Address, r *rand.Rand) []companion {
+	rd, err := run.A.Chain.LookBackVldReaderForRound(round, false)
+	if err != nil {
+		return nil
+	}
+	vs := rd.GetValidators()
+	online := 0
+	for _, v := range st.GetValidatorsForUpdate() {
+		if v.IsOnline() && v.MainAddress() != first {
+			online++
+		}
+	}
+	var out []companion
+	for _, v := range vs.List() {
+		m := v.MainAddress()
+		cur := st.GetValidatorByMainAddr(m)
+		if m == proposer || m == first || run.W.ValIndex(m) < 0 || cur == nil || cur.Stake.Sign() == 0 || cur.Expelled || len(out) == 2 {
+			continue
+		}
+		if cur.IsOnline() {
+			if online <= 2 {
+				continue // at least two validators stay online
+			}
+			online--
+		}
+		idx, _ := vs.GetIndex(m)
+		sk := run.W.Keys.ValBls(run.W.ValIndex(m))
+		ri := uint32(1 + r.Intn(3))
+		var A, B common.Hash
+		r.Read(A[:])
+		r.Read(B[:])
+		sg := func(h common.Hash) []byte {
+			x := sk.Sign(payload(h, round, ri)).Compress()
+			return append([]byte{}, x[:]...)
+		}
+		out = append(out, companion{m, staking.EvidenceDoubleSignV5{Round: round, RoundIndex: ri, SignerIdx: uint32(idx), VoteType: vtPrevote,
+			Signs: []*staking.SignInfo{{Hash: A, Sign: sg(A)}, {Hash: B, Sign: sg(B)}}}})
+	}
+	return out
 }
 
 // makeEvidence picks an accused validator of the look-back set (never the proposer) and one
